@@ -30,9 +30,25 @@ for cfg in (dict(chain=True), dict(chain=True, conc=True), dict(fanin=True), dic
     HARNESSES += [HH(x, **cfg) for x in q]
     HARNESSES += [HH(x, **cfg) for x in nested(lv, inner='sw' if cfg.get('settarget') or cfg.get('fanin') else 'sBw')]
     HARNESSES += [HH(x, tiers=('thorough',), **cfg) for x in ops_on(lv, 'asbB', 3) if x not in q]
+# dispatch_async_and_wait through the hierarchy (its item may be parked on a busy lower level and run by that level's drainer, which must keep its own lock: _dispatch_sync_complete_recurse stops at stop_dq):
+# every sequence of 3 operations over {async, sync, async_and_wait} x levels (+ worker) that contains an async_and_wait - serial->serial in the quick tier, the other shapes in the thorough tier
+_w3 = [x for x in ops_on((0, 1), 'asw', 3) if 'w' in x]
+HARNESSES += [HH(x, chain=True) for x in _w3] + [HH(x, chain=True, conc=True, tiers=('thorough',)) for x in _w3] + [HH(x, fanin=True, tiers=('thorough',)) for x in ops_on((0, 1, 2), 'asw', 3) if 'w' in x]
+# dispatch_set_target_queue on the ACTIVE top queue (three unrelated queues; 'T' retargets queue 0 onto serial queue 1): every sequence of <= 3 (thorough 4) operations over
+# {async, sync, async on the new target, worker, T} with exactly one T, plus retargets issued from inside a running item; oracle: LOCK-CHAIN (hist_item_body) + the per-queue ones
+def _rt(n):
+    out = []
+    for t in itertools.product(['a', 's', 'a1', 'R', 'T'], repeat=n):
+        if t.count('T') != 1 or t[0] == 'R' or t[-1] == 'R' or t[-1] == 'T' or any(t[i] == 'R' and t[i + 1] == 'R' for i in range(n - 1)): continue
+        out.append(''.join(t))
+    return out
+_rtq = _rt(2) + _rt(3) + ['aTaa', 'aTa1a', 'aTsa', 'aaTa', 'a^Ta', 'aTaRa1', 's~Ta', 'a~Taa']
+_rtx = dict(indep=True, icall_extra=['_dispatch_lane_legacy_set_target_queue'], name_extra='_retarget')
+HARNESSES += [HH(x, **_rtx) for x in _rtq] + [HH(x, tiers=('thorough',), **_rtx) for x in _rt(4) if x not in _rtq]
+HARNESSES += [HH(x, chain=True) for x in ('a1wa1s', 'a1wa1Rs', 'a1w1a1s', 'a1Rwa1s')]
 ASSUMPTIONS = ['tier H: hierarchies (a) serial->serial->root, (b) concurrent->serial->root, (c) two queues fanning in on one serial queue, (d) the same built by dispatch_set_target_queue on an inactive queue followed by dispatch_activate',
                'histories are sequential; overlap is exercised through nested operations: while an item runs, client thread B submits synchronously to any level (if B must sleep its path ends there); worker choice: oldest pending hand-off',
                'workloops as hierarchy bottom are not covered: on this platform a serial queue targeting a dispatch_workloop crashes in _dispatch_lane_drain (DISPATCH_INVOKE_WORKLOOP_DRAIN dereferences a non-workloop wlh) - see DESIGN, known limitation of the build, not exercised',
-               'depth <= 3, fan-in <= 2']
+               'depth <= 3, fan-in <= 2', 'LOCK-CHAIN oracle: whenever an item of a queue whose do_targetq is a serial queue of the hierarchy starts, the running thread holds that serial queue\'s drain lock (covers hierarchies built by dispatch_set_target_queue on an active queue)']
 LEVEL_TEXT = 'Tier H on real code: hierarchies serial->serial->root, concurrent->serial->root, two queues fanning in on one serial queue, the same built through dispatch_set_target_queue on an inactive queue + activate, with and without a client-chosen QoS attribute; every sequence of 2 (thorough 3) submissions addressed to any level, plus nested histories in which a second client submits synchronously to any level while an item of any level runs: at most one item of the hierarchy runs at a time, per-queue FIFO.'
-LEVEL_NOTE = "Depth <= 3, fan-in <= 2, sequential histories with nested client submissions; workloops as hierarchy bottom are not exercised (a serial queue targeting a workloop crashes on this platform's build); retargeting of ACTIVE queues is outside the property's quantifier."
+LEVEL_NOTE = "Depth <= 3, fan-in <= 2, sequential histories with nested client submissions; workloops as hierarchy bottom are not exercised (a serial queue targeting a workloop crashes on this platform's build); retargeting of an ACTIVE queue: histories with one dispatch_set_target_queue on the active top queue (three otherwise unrelated queues)."
